@@ -130,6 +130,8 @@ class Q:
         self.sites = 0
         self.depth = 0
         self.kind = "iter"
+        self.outer = []       # parameters of enclosing immediately called lambdas: (name, class, lambda depth)
+        self.fresh = 0
 
     def rewrite(self, cb, site):
         return self.m._rewrite(self.cbs[cb].get("rw"), site)
@@ -161,6 +163,13 @@ class Q:
         """a float-valued expression over variable v : cls"""
         self.depth = max(self.depth, d)
         r = self.r
+        # the parameter of an enclosing called lambda, used one or more operator lambdas further in: it is still typed,
+        # so the callbacks of its class and methods fire there too
+        avail = [o for o in self.outer if o[2] < d]
+        if avail and r.random() < 0.3:
+            z, zc, _ = r.choice(avail)
+            w, x, _ = self.mcall(zc, N(z), N(z), r.choice(sorted(m for m, (_, res) in METHODS[zc].items() if res == "float")), ev)
+            return w, x
         if cls in LEPTONS:
             k = r.choice(sorted(METHODS[cls]) + ["fn", "binop"])
             if k in METHODS[cls]:
@@ -184,8 +193,17 @@ class Q:
             return w, x
         if k == "called":
             # an immediately called lambda: its body is part of the query, its parameter has the argument's type
-            z = r.choice(["z", v, "q"])
-            w, x = self.scalar(cls, z, d, ev)
+            z = r.choice(["z", v, "q", None, None])
+            if z is None:
+                self.fresh += 1
+                z = "c%d" % self.fresh                  # never hidden by another parameter: usable further in
+                self.outer.append((z, cls, d))
+                try:
+                    w, x = self.scalar(cls, z, d, ev)
+                finally:
+                    self.outer.pop()
+            else:
+                w, x = self.scalar(cls, z, d, ev)
             return call(lam(z, w), [N(v)]), call(lam(z, x), [N(v)])
         if k == "lead":
             # a method of an object returned directly (no lambda): e.LeadLep().pt()
@@ -219,7 +237,7 @@ class Q:
         kind = self.kind
         if k == "nestcount":
             body_ev = []
-            nv = r.choice(["t", v, "q"])
+            nv = r.choice(["t", v if not any(v == o[0] for o in self.outer) else "t", "q"])   # a tracked parameter is never hidden
             b, bx = self.scalar(sub, nv, d + 1, body_ev)
             cw = tc.op_call(r, coll, "Where", lam(nv, gen.cmp(ast.Gt, b, C(1))), 0.0 if kind == "own" else 0.5)
             cx = call(A(collx, "Where"), [lam(nv, gen.cmp(ast.Gt, bx, C(1)))])
@@ -272,7 +290,7 @@ class Q:
             return self.scalar(cls, v, d, ev)
         coll, collx, sub = self.collection(cls, v, d, ev)
         kind = self.kind
-        nv = r.choice(["j", "t", v])
+        nv = r.choice(["j", "t", v if not any(v == o[0] for o in self.outer) else "t"])
         op = r.choice(["Select", "Select", "Where+Select", "SelectMany"])
         if op == "SelectMany" and sub == "Jet":
             body_ev = []
